@@ -785,7 +785,8 @@ class Context:
 
         """
         requested_plugins = {}
-        cached_plugins = self._fixed_plugin_cache[self._context_hash()]  # type: ignore
+        # Iterate over a copy: other threads may add plugins to the cache meanwhile
+        cached_plugins = self._fixed_plugin_cache[self._context_hash()].copy()  # type: ignore
         for target, plugin in cached_plugins.items():
             if target in requested_plugins:
                 # If e.g. target is already seen because the plugin is
